@@ -81,7 +81,7 @@ def hist_family(prop, tier, runs, crash_phases, crash_note, conform, assumptions
         a = open(os.path.join(WORK, "dig", f"{prop}-m-{i}.txt")).read().splitlines()
         b = open(os.path.join(WORK, "dig", f"{prop}-r-{i}.txt")).read().splitlines()
         if len(a) != len(b):
-            raise MachineryError("conformance: mounted and unmodified builds enumerated different history sets")
+            mismatches.append((f"{len(a)} histories judged on the mounted build", f"{len(b)} on the unmodified build (a batch was abandoned after repeated hangs?)"))
         for x, y in zip(a, b):
             if x.endswith(" 1") or y.endswith(" 1"):
                 continue  # a history with a violation / process death: the builds need not agree (the environment refuses harmful calls)
@@ -152,7 +152,7 @@ def check_c02(tier):
 
 
 def check_c03(tier):
-    runs = [(["--fs"], 4, False), (["--fs", "--text"], 3, True)] if tier == "quick" else [(["--fs"], 5, False), (["--fs", "--text"], 4, False)]
+    runs = [(["--fs"], 4, False), (["--fs", "--text"], 3, True)] if tier == "quick" else [(["--fs"], 5, False), (["--fs", "--text"], 3, False), (["--fs", "--text"], 4, True)]
     return hist_family("C03", tier, runs, crash_phases=(),
                        crash_note="Process deaths are left to C01/C02 (counted as undecided here).",
                        conform=(["--fs"], 3, False),
@@ -230,7 +230,7 @@ def run_times(prop, runs, conform=True):
                 a = open(dm[i]).read().splitlines()
                 b = open(dr[i]).read().splitlines()
                 if len(a) != len(b):
-                    raise MachineryError("conformance: different history sets")
+                    mismatches.append((f"{len(a)} histories judged on the mounted build", f"{len(b)} on the unmodified build"))
                 for x, y in zip(a, b):
                     if x.endswith(" 1") or y.endswith(" 1"):
                         continue
@@ -405,15 +405,15 @@ def llvm_crosscheck(words):
     return n
 
 
-def e1_run(check, tier, features=True):
+def e1_run(check, tier, features=True, profile="dev"):
     """Build e1 (with the private-access feature when the mounted tree allows it) and run all shards."""
     reduced = []
     try:
-        build(["e1"], features=["e1/priv_access"])
+        build(["e1"], features=["e1/priv_access"], profile=profile)
     except MachineryError as e:
-        build(["e1"])
+        build(["e1"], profile=profile)
         reduced.append("priv_access accessors do not compile against this tree: encoder-level sub-domains (entry displacements beyond the allocator's window) skipped")
-    outs = run_engine_sharded(bin_path("e1"), [check, "--tier", tier], NCPU, timeout=3000)
+    outs = run_engine_sharded(bin_path("e1", profile), [check, "--tier", tier], NCPU, timeout=3000)
     m = {"cases": 0, "transitions": 0, "tags": {}, "traces": {}, "words": set(), "violations": [], "counts": {}, "samples": [], "domain": outs[0].get("domain")}
     for o in outs:
         m["cases"] += o["cases"]
@@ -455,8 +455,13 @@ def e1_family(prop, tier, check, take_props, crash_is_violation, need_tags, assu
     ms = []
     reduced = []
     for c in checks_:
-        m1, reduced = e1_run(c, tier)
-        m1["_check"] = c
+        prof = "dev"
+        cname = c
+        if c.endswith("@release"):
+            # the same domain against a build without overflow checks (wrapped arithmetic of release builds)
+            cname, prof = c[:-8], "release"
+        m1, reduced = e1_run(cname, tier, profile=prof)
+        m1["_check"] = cname
         ms.append(m1)
     m = e1_merge(ms)
     viols = []
@@ -484,7 +489,7 @@ def e1_family(prop, tier, check, take_props, crash_is_violation, need_tags, assu
             raise MachineryError(f"vacuous exploration: no placement exercised branch '{t}' (tags seen: {sorted(m['tags'])})")
     crossed = llvm_crosscheck(m["words"]) if m["words"] else 0
     cov = {
-        "states": m["cases"] if checks_ == ["c01"] else m["transitions"],
+        "states": m["cases"] if all(c.startswith("c01") for c in checks_) else m["transitions"],
         "transitions": m["transitions"],
         # every placement is an execution of the real installer (there is no separate model of the
         # implementation whose traces would need replaying); on x86-64 the abstract machine's verdict
@@ -521,7 +526,7 @@ E1_ASSUME = [
 
 
 def check_c01(tier):
-    return e1_family("C01", tier, "c01", ("C01",), True,
+    return e1_family("C01", tier, ["c01"] if tier == "quick" else ["c01", "c01@release"], ("C01",), True,
                      ["entry-straddles-page", "trampoline:long", "trampoline:rel32", "trampoline:bool-stub", "refused", "real-call"],
                      E1_ASSUME + ["Windows-style long entry patches and the macOS patch_function are not compiled on this host"],
                      "states = placements (function address incl. in-page offset x trampoline page displacement x fake address x install kind) each run through the real x86-64 installer under the OS model; transitions = install, call, remove; the whole structured address domain listed under bound was enumerated")
